@@ -30,6 +30,13 @@ def gen(rng, tier):
         for t in G.re_trees(n, 2):
             i += 1
             cases.append({'kind': 're', 'r': G.relabel_re(t, G.CODE_SETS[i % len(G.CODE_SETS)])})
+    for _ in range(120 if quick else 2500):
+        inner = rng.choice([['+', ['1'], ['s', 0]], ['+', ['*', ['s', 0]], ['s', 1]], ['.', ['*', ['s', 0]], ['*', ['s', 1]]], ['*', ['s', 0]], ['1'],
+                            ['+', ['s', 0], ['1']]])
+        star = ['*', inner]
+        other = G.random_re(rng, rng.randint(1, 2), 2)
+        t = rng.choice([['+', star, other], ['+', other, star], ['.', star, other], ['.', other, star], ['*', ['+', star, other]], ['+', star, ['*', other]]])
+        cases.append({'kind': 're', 'r': t})
     for _ in range(150 if quick else 3000):
         t = G.random_re(rng, rng.randint(2, 5), 2)
         if G.re_nodes(t) <= 16:
